@@ -467,7 +467,8 @@ class RuntimeContext:
     ):
         # err = Error(e)
         self.errors.append(e)
-        if force_raise or not self.options.collect_errors:
+        if force_raise or self.force_error or not self.options.collect_errors:
+            # force_error contexts (attribute / item assignment) have no later raise_error() call
             raise e
 
         if (
